@@ -94,6 +94,13 @@ func runOverlapCase(o *hx.Out, p params) (string, int64) {
 	do(step{kind: "W", req: plainWrite(g, o)})
 	do(step{kind: "W", req: plainWrite(g, o)})
 	do(step{kind: "S", upto: x + 1})
+	// every follower has been sent n+1 before the application of n is held: the held application keeps the tracker
+	// mutex (that is the point of the scenario), and a cursor that still has to wait for the head offset needs that
+	// mutex to go on sending
+	for f := 0; f < rf-1 && ok; f++ {
+		name := followerName(f)
+		ok = waitFor(stepTimeout, func() bool { s := lr.rpc.get(name); return s != nil && s.lastPushed() >= x+1 })
+	}
 
 	hg := newHoldGate()
 	released := false
